@@ -27,31 +27,51 @@ LEVEL_TEXT = ("Machine-checked Coq theorems over an executable two-layer model: 
               "altered; listing/iterating yields every row once in order. The model is tied to dataframe.py by running real DataFrames through "
               "random programs (eager and generator-backed sources, names-only and RelationSchema) and all window arguments of a small scope, and "
               "evaluating both the code model and the list specification on the same programs inside Coq; a direct property oracle on the "
-              "implementation supplies replayable failing inputs.")
+              "implementation supplies replayable failing inputs. Round 2: a second, object-level model (frames and generators as objects; "
+              "the generator functions of select, filter and take read self._rows when first advanced) in "
+              "which lazily backed results stay unforced while their sources are observed; proved for all frames: an unforced select/filter/take result of a "
+              "generator-backed frame or of a lazy intermediate lists every row after its source was materialised by any operator, "
+              "select/filter/take of a list-backed frame list the plain-list result whatever is done to the source in between, no object-level "
+              "program alters a list-backed frame; binding when the method is called is refuted for all three; real DataFrames are run through object-level "
+              "programs (generator-backed initial frames, results left unlisted, every frame listed at the end) against this model in Coq and "
+              "against a strict plain-list oracle.")
 LEVEL_NOTE = ("Trusted: Coq kernel + vm_compute; the hand-written code model (validated, not verified, against CPython generator / list() / slice "
-              "semantics and the shipped compiled collector by the correspondence run); a derived lazy frame is modelled only up to the moment "
-              "it is first listed, with nothing touching its source in between (select reads self._rows when its generator starts, filter/take "
-              "bind it at creation: indistinguishable in that protocol). Window sizes < 0, batch sizes < 1 and collect columns that do not exist "
+              "semantics and the shipped compiled collector by the correspondence run); in the step-language model (stream prog, theorem "
+              "C03_programs) a derived lazy frame is listed at once; deferred forcing is covered by the object-level model (stream heap), whose "
+              "general theorems are the list-backed invariance and the unstarted-select lemma, the rest being scenario theorems (fixed short "
+              "call sequences, all frames / arguments / observing operators) - there is no all-programs equivalence with a plain-list run for "
+              "generator-backed frames, because a generator that has been advanced is one-shot and the property is silent about it (oracle: "
+              "status spent). F-C03-6 (filter/take bound their source when called) is fixed (75a1e72): model, theorems and oracle now require "
+              "every row of a filter/take result whose source was materialised before it was first listed. Window sizes < 0, batch sizes < 1 and collect columns that do not exist "
               "are outside the program theorem (hypothesis prog_ok; the source-unchanged theorem has no such hypothesis) but inside the "
               "correspondence. collect() with a set or bool column argument, predicates/masks that raise, and ragged rows are not exercised. No axioms (Print Assumptions: closed).")
 DESIGN_REF = "DESIGN.md section 8, C03"
-COQ_IMPORTS = "From Orso Require Import Model.C03."
-COQ_CHECKS = {"prog": "c03_check_both"}
-COQ_SHOW = {"prog": "c03_show"}
+COQ_IMPORTS = "From Orso Require Import Model.C03 Model.C03_Heap."
+COQ_CHECKS = {"prog": "c03_check_both", "heap": "c03h_check"}
+COQ_SHOW = {"prog": "c03_show", "heap": "c03h_show"}
+MODEL_VOS = ["Model/C03.vo", "Model/C03_Heap.vo"]
 RULE = ("random frames (0..12 rows x 0..4 columns of ints in -2..3, names-only or RelationSchema, one or two initial frames) and random "
         "programs of 1..6 operators, each applied to an earlier frame used as it is (list-backed) or re-wrapped as a generator-backed frame; "
         "after every step column_names and list() of the result(s) and then of the source(s) are recorded; exhaustive stream: every "
         "head/tail/slice argument in -(n+2)..n+2 on frames of n rows, eager and lazy; a case is non-trivial when some step returned at "
-        "least one row; distinct by canonical JSON")
+        "least one row; distinct by canonical JSON; object-level stream: programs of 2..8 calls on frame objects (initial frames list- or "
+        "generator-backed), biased to making select/filter/take results and observing their sources before they are listed, results never "
+        "listed when made, every frame listed once at the end; exhaustive: source backing x derived frame x observation(s) before first listing")
 TRUSTED = [
     "C03 code model (coq/Model/C03.v, coq/Base/PySlice.v): modelled, not verified: CPython slice clamping, list.index, zip/enumerate over a "
     "generator, set membership of int tuples, range(), list(x) = iter + length hint + drain, numpy object-array shape of collect_cython",
     "two RelationSchema objects are equal only if they are the same object (random column identities): modelled by a schema id",
+    "C03 object-level model (coq/Model/C03_Heap.v): modelled, not verified: a generator function reads its closure's attributes when first "
+    "advanced, a generator expression evaluates its outermost iterable when created, iter(generator) is the generator, iter(list) is private, "
+    "zip asks its first argument first, a finished generator stays finished; fuel (hfuel) proved sufficient for the generators the theorems meet",
 ]
 ASSUMPTIONS = [
     "row values compare with an equivalence (Python ==); the harness uses small ints (including -1 and -2, equal hashes)",
     "frames are rectangular (every row as wide as the schema): a ragged row is C10's subject",
-    "a derived generator-backed frame is listed before anything else touches its source",
+    "stream prog / C03_programs: a derived generator-backed frame is listed before anything else touches its source (stream heap and the "
+    "C03_unforced_* theorems drop this)",
+    "object-level oracle: a generator-backed frame whose generator has been advanced (iterated, queried, pulled by a derived frame) is one-shot: "
+    "only 'a tail of its rows is left' is required of it and of frames derived from it",
 ]
 KNOWN_WITNESSES = {}
 
@@ -131,6 +151,8 @@ def _cols_arg(cols):
 def observe(case):
     from orso.dataframe import DataFrame
 
+    if "hsteps" in case:
+        return _observe_heap(case)
     schemas = _schemas(case["frames"])
     env = [DataFrame(rows=[tuple(r) for r in f["rows"]], schema=s) for f, s in zip(case["frames"], schemas)]
     out = []
@@ -294,6 +316,8 @@ class _Plain:
 
 
 def oracle(case, obs):
+    if "hsteps" in case:
+        return _oracle_heap(case, obs)
     P = _Plain(case)
     for t, (st, ob) in enumerate(zip(case["steps"], obs)):
         where = f"step {t} {st['op']} on frame {st['src'] % len(P.env)}{' (generator-backed copy)' if st['lazy'] else ''}"
@@ -434,6 +458,8 @@ def _coq_out(o):
 
 
 def to_coq(case, obs):
+    if "hsteps" in case:
+        return _to_coq_heap(case, obs)
     fr = case["frames"]
     env = []
     for j, f in enumerate(fr):
@@ -459,12 +485,19 @@ def nontrivial_key(case, obs):
             return bool(o[1])
         return False
 
+    if "hsteps" in case:
+        if not any(o[0] == "rows" and o[1] for o in obs["steps"]) and not any(x[0] != "!raise" and x[1] for x in obs["final"]):
+            return None
+        return repr((case["frames"], case["hsteps"]))
     if not any(some_row(o["out"]) for o in obs):
         return None
     return repr((case["frames"], case["steps"]))
 
 
 def classify(case, obs):
+    if "hsteps" in case:
+        yield from _classify_heap(case, obs)
+        return
     for f in case["frames"]:
         yield "schema:" + ("RelationSchema" if f["typed"] else "names")
         yield "rows=%s" % ("0" if not f["rows"] else "1-3" if len(f["rows"]) <= 3 else "4-8" if len(f["rows"]) <= 8 else "9-12")
@@ -527,6 +560,21 @@ def corpus():
                      {"src": 3, "lazy": False, "op": ["batches", 2]},
                      {"src": 5, "lazy": False, "op": ["add", 4, True]},
                      {"src": 6, "lazy": True, "op": ["collect", ["a", 0], 2]}]}
+    # round 2: lazily backed results that stay unforced while their source is observed
+    g = _hframe("abc", [[1, 2, 3], [4, 5, 6], [7, 8, 9], [10, 11, 12]], gen=True)
+    e = _hframe("abc", [[1, 2, 3], [4, 5, 6], [7, 8, 9], [10, 11, 12]])
+    yield _hcase([g], [(0, ["select", ["c", "a"]]), (0, ["len"]), (1, ["list"])])
+    yield _hcase([e], [(0, ["select", ["b", "a", "c"]]), (1, ["select", ["a"]]), (1, ["select", ["c", "b"]]), (1, ["rowcount"]), (2, ["list"]), (3, ["len"])])
+    yield _hcase([g], [(0, ["select", ["a"]]), (0, ["select", ["b"]]), (0, ["mat"])])
+    yield _hcase([e], [(0, ["filter", [1, 0, 1, 1]]), (0, ["take", [3, 0]]), (0, ["head", 1]), (0, ["distinct"]), (2, ["select1", "b"])])
+    yield _hcase([g], [(0, ["filter", [1]]), (1, ["list"]), (0, ["select", ["a"]])])
+    yield _hcase([g, _hframe("abc", [[0, 0, 0]])], [(0, ["select", ["a", "b", "c"]]), (0, ["add", 1]), (2, ["add", 2])])
+    # F-C03-6 (fixed 75a1e72): filter / take of a generator-backed frame (or of a lazy intermediate) that is
+    # materialised before the derived frame is first listed
+    yield _hcase([_hframe("ab", H_ROWS, gen=True)], [(0, ["filter", [1, 1, 1]]), (0, ["len"])])
+    yield _hcase([_hframe("ab", H_ROWS, gen=True)], [(0, ["take", [0, 1, 2]]), (0, ["rowcount"]), (1, ["list"])])
+    yield _hcase([_hframe("ab", H_ROWS)], [(0, ["select", ["a", "b"]]), (1, ["filter", [1, 0, 1]]), (1, ["take", [2, 0]]), (1, ["head", 9]),
+                                            (2, ["list"]), (3, ["len"])])
 
 
 def _window_cases(nmax):
@@ -547,8 +595,11 @@ def _window_cases(nmax):
 
 def exhaustive(tier):
     nmax = 3 if tier == "quick" else 5
-    return _window_cases(nmax), (f"every head/tail/slice(offset)/slice(offset,length)/row/to_batches/collect-limit argument in -(n+2)..n+2 "
-                                 f"on one-column frames of n = 0..{nmax} rows, list-backed and generator-backed")
+    return itertools.chain(_window_cases(nmax), _deferred_cases(tier)), (
+        f"every head/tail/slice(offset)/slice(offset,length)/row/to_batches/collect-limit argument in -(n+2)..n+2 "
+        f"on one-column frames of n = 0..{nmax} rows, list-backed and generator-backed; every combination of source backing "
+        f"(list, generator, select/filter/take result) x derived frame (select, filter, take, head, distinct) x observation(s) of the "
+        f"source or of a sibling made before the derived frame is first listed")
 
 
 def _rand_frame(rng, names=None):
@@ -651,14 +702,21 @@ def generate(rng, tier):
     count = 2500 if tier == "quick" else 50000
     for i in range(count):
         yield _rand_case(rng, malformed=(i % 5 == 4))
+    count = 1200 if tier == "quick" else 16000
+    for i in range(count):
+        yield _rand_hcase(rng, malformed=(i % 6 == 5))
 
 
 def search(rng):
     while True:
         yield _rand_case(rng, malformed=False)
+        yield _rand_hcase(rng, malformed=False)
 
 
 def shrink(case):
+    if "hsteps" in case:
+        yield from _shrink_heap(case)
+        return
     steps = case["steps"]
     if len(steps) > 1:
         for i in range(len(steps) - 1, -1, -1):
@@ -672,3 +730,432 @@ def shrink(case):
     for i, st in enumerate(steps):
         if st["lazy"]:
             yield dict(case, steps=steps[:i] + [dict(st, lazy=False)] + steps[i + 1:])
+
+
+# =============================================================================
+# Round 2: object-level programs ("hsteps").  Frames are DataFrame OBJECTS of one environment;
+# a step is ONE call on frame  src % len(env)  itself; frames a call returns join the environment
+# WITHOUT being listed, so a lazily backed result stays unforced while other frames - its source
+# included - are observed.  When the program ends every frame is listed once, in environment order
+# (so a source is listed before the frames derived from it).
+#   initial frame: as above plus "gen": True = DataFrame(rows=(r for r in rows), schema=...)
+#   ops: those above (["add", j] adds frame j itself) and ["list"] ["mat"] ["rowcount"]
+#   observation: {"steps": [["new", [names, ...]] | value | ["raise", cls], ...], "final": [[names, rows], ...]}
+# =============================================================================
+H_LAZY = ("select", "select1", "filter", "take")
+H_CONSUMING = ("query", "distinct", "iter")          # iterate _rows without materialising
+H_NEWFRAME = ("head", "tail", "slice", "query", "filter", "take", "select", "select1", "distinct", "add", "batches")
+
+
+def _observe_heap(case):
+    from orso.dataframe import DataFrame
+
+    schemas = _schemas(case["frames"])
+    env = []
+    for f, sc in zip(case["frames"], schemas):
+        rows = [tuple(r) for r in f["rows"]]
+        env.append(DataFrame(rows=(r for r in rows), schema=sc) if f.get("gen") else DataFrame(rows=rows, schema=sc))
+    steps = []
+    for st in case["hsteps"]:
+        a = env[st["src"] % len(env)]
+        op = st["op"]
+        k = op[0]
+        new = []
+        try:
+            if k == "head":
+                new = [a.head(op[1])]
+            elif k == "tail":
+                new = [a.tail(op[1])]
+            elif k == "slice":
+                new = [a.slice(op[1]) if op[2] is None else a.slice(op[1], op[2])]
+            elif k == "query":
+                new = [a.query(_pred(op[1]))]
+            elif k == "filter":
+                new = [a.filter([bool(m) for m in op[1]])]
+            elif k == "take":
+                new = [a.take(list(op[1]))]
+            elif k == "select":
+                new = [a.select(list(op[1]))]
+            elif k == "select1":
+                new = [a.select(op[1])]
+            elif k == "distinct":
+                new = [a.distinct()]
+            elif k == "add":
+                new = [a + env[op[1] % len(env)]]
+            elif k == "batches":
+                new = list(a.to_batches(op[1]))
+            elif k in ("collect", "getitem"):
+                c = a.collect(_cols_arg(op[1]), op[2]) if k == "collect" else a[_cols_arg(op[1])]
+                o = ["cols", [[int(v) for v in col] for col in c]]
+            elif k in ("collect1", "getitem1"):
+                c = a.collect(op[1], op[2]) if k == "collect1" else a[op[1]]
+                o = ["col", [int(v) for v in c]]
+            elif k == "row":
+                o = ["row", [int(v) for v in a.row(op[1])]]
+            elif k == "len":
+                o = ["nat", len(a)]
+            elif k == "rowcount":
+                o = ["nat", int(a.rowcount)]
+            elif k == "iter":
+                o = ["rows", [[int(v) for v in r] for r in a]]
+            elif k == "list":
+                o = ["rows", [[int(v) for v in r] for r in list(a)]]
+            elif k == "mat":
+                a.materialize()
+                o = ["new", []]
+            else:
+                raise KeyError(k)
+            if k in H_NEWFRAME:
+                o = ["new", [[str(n) for n in r.column_names] for r in new]]
+        except KeyError:
+            raise
+        except Exception as e:
+            o = ["raise", type(e).__name__]
+            new = []
+        steps.append(o)
+        env.extend(new)
+    return {"steps": steps, "final": [_listing(df) for df in env]}
+
+
+class _Ref:
+    """One frame of the reference environment of the object-level oracle.
+    rows: what the property says the frame's rows are (None = the property does not say);
+    status: 'list' (list-backed), 'fresh' (backed by a generator nothing has advanced yet),
+            'spent' (backed by a generator that has been advanced: one-shot, the property is silent
+            about what it still yields except that it is a tail of its rows);
+    deriv: for the fresh result of select/filter/take: (kind, argument, parent index, parent's status at creation)"""
+    __slots__ = ("names", "sid", "rows", "status", "deriv")
+
+    def __init__(self, names, sid, rows, status, deriv=None):
+        self.names, self.sid, self.rows, self.status, self.deriv = names, sid, rows, status, deriv
+
+
+def _plain_expect(names, sid, rows, op, other=None):
+    """the operator on a plain list of rows (the class _Plain above, on a one- or two-frame environment)"""
+    P = _Plain.__new__(_Plain)
+    P.env = [(names, sid, rows)] + ([other] if other is not None else [])
+    if op[0] == "add":
+        op = ["add", 1 if other is not None else 0, False]
+    if op[0] == "rowcount":
+        op = ["len"]
+    return P.expect({"src": 0, "lazy": False, "op": op})
+
+
+def _yield_of(env, d):
+    """What listing frame d must give NOW according to the property (None = silent), marking every
+    generator-backed frame that is advanced on the way as spent.
+    A frame derived by select/filter/take equals the operation on its source's rows:
+      - the source is list-backed when the derived frame is first iterated -> the operation on that list,
+        whatever the source was backed by when select/filter/take was called (F-C03-6, fixed 75a1e72);
+      - the source is backed by a generator nothing has advanced -> the operation on what that yields;
+      - the source's generator has already been advanced -> one-shot: silent."""
+    D = env[d]
+    if D.status == "list":
+        return D.rows
+    if D.status == "spent":
+        return None
+    if D.deriv is None:
+        return D.rows
+    kind, arg, parent, parent_was = D.deriv
+    S = env[parent]
+    if S.status == "list":
+        src = S.rows
+    elif S.status == "fresh":
+        src = _yield_of(env, parent)
+        S.status = "spent"
+        S.rows = src
+    else:
+        src = None
+    if src is None:
+        return None
+    k, want, _ = _plain_expect(S.names, S.sid, src, [kind, arg])
+    return want[1] if k == "frame" else None
+
+
+def _oracle_heap(case, obs):
+    fr = case["frames"]
+    env = [_Ref(list(f["names"]), (_schema_id(fr, j) if f["typed"] else None), [list(r) for r in f["rows"]], "fresh" if f.get("gen") else "list")
+           for j, f in enumerate(fr)]
+    prog = [(st, o, False) for st, o in zip(case["hsteps"], obs["steps"])]
+    n_final = len(obs["final"])
+    prog += [({"src": j, "op": ["list"]}, x, True) for j, x in enumerate(obs["final"])]
+    for t, (st, o, final) in enumerate(prog):
+        if final and st["src"] >= len(env):
+            return f"final listing: the harness listed {n_final} frames, the reference has {len(env)}"
+        d = st["src"] % len(env)
+        D = env[d]
+        op = st["op"]
+        k = op[0]
+        where = (f"final listing of frame {d}" if final else f"step {t} {op} on frame {d}") + f" ({D.status}-backed)"
+        if final:
+            if o[0] == "!raise":
+                return f"{where}: listing raised {o[1]}"
+            if o[0] != D.names:
+                return f"{where}: column names are {o[0]}, required {D.names}"
+            o = ["rows", o[1]]
+        # ---------------- calls that return a lazily backed frame: nothing is touched
+        if k in H_LAZY:
+            want = list(op[1]) if k == "select" else [op[1]] if k == "select1" else D.names
+            if k in ("select", "select1") and any(w not in D.names for w in want):
+                if o[0] != "raise":
+                    return f"{where}: a column that does not exist was requested, yet a result came back: {o}"
+                continue
+            if o[0] == "raise":
+                return f"{where}: raised {o[1]}; required a frame with columns {want}"
+            if o != ["new", [want]]:
+                return f"{where}: required one new frame with columns {want}, got {o}"
+            kind = "select" if k == "select1" else k
+            env.append(_Ref(want, None if kind == "select" else D.sid, None, "fresh", (kind, want if kind == "select" else op[1], d, D.status)))
+            continue
+        # ---------------- everything else iterates the frame's rows: to the end (materialising or not)
+        was = D.status
+        prior = D.rows if was == "spent" else None
+        rows = _yield_of(env, d)
+        other = None
+        if k == "add":
+            e = op[1] % len(env)
+            E = env[e]
+            same = (D.sid == E.sid and D.names == E.names) if (D.sid is None or E.sid is None) else D.sid == E.sid
+            if not same:
+                # the property is silent; the code refuses before touching either frame
+                if o[0] == "new":
+                    env.append(_Ref(o[1][0] if o[1] else D.names, None, None, "list"))
+                continue
+            D.status, D.rows = "list", rows
+            rows2 = _yield_of(env, e)
+            E.status, E.rows = "list", rows2
+            other = (E.names, E.sid, rows2)
+        elif k in H_CONSUMING:
+            if was == "fresh":
+                D.status, D.rows = "spent", rows
+        else:
+            D.status, D.rows = "list", rows
+        if prior is not None and k in ("list", "iter") and o[0] == "rows" and o[1] != prior[len(prior) - len(o[1]):]:
+            return f"{where}: a frame whose generator has been advanced may only have a tail of {prior} left, listing gave {o[1]}"
+        # the expected outcome
+        if k in ("list", "iter"):
+            kind, want, rsid = ("rows", rows, None) if rows is not None else ("free", None, None)
+        elif k == "mat":
+            kind, want, rsid = ("new", [], None)
+        elif rows is None or (other is not None and other[2] is None):
+            kind, want, rsid = ("free", None, None)
+        else:
+            kind, want, rsid = _plain_expect(D.names, D.sid, rows, op, other)
+        if k == "list" and o[0] == "rows":
+            if rows is None:
+                D.rows = o[1]          # list-backed from now on, with the rows it showed
+        if kind == "raise":
+            if o[0] != "raise":
+                return f"{where}: required an exception, got {o}"
+        elif kind != "free":
+            if o[0] == "raise":
+                return f"{where}: raised {o[1]}; required {kind} {want}"
+            if kind == "frame":
+                if o != ["new", [want[0]]]:
+                    return f"{where}: required one new frame with columns {want[0]}, got {o}"
+            elif kind == "frames":
+                if o != ["new", [b[0] for b in want]]:
+                    return f"{where}: required {len(want)} batches with columns {D.names}, got {o}"
+            elif kind == "new":
+                if o != ["new", []]:
+                    return f"{where}: got {o}"
+            elif o[0] != kind or o[1] != want:
+                return f"{where}: required {kind} {want}, got {o}"
+        # new list-backed frames
+        if o[0] == "new":
+            if kind == "frame":
+                env.append(_Ref(want[0], rsid, want[1], "list"))
+            elif kind == "frames":
+                for b in want:
+                    env.append(_Ref(b[0], D.sid, b[1], "list"))
+            else:
+                for ns in o[1]:
+                    env.append(_Ref(ns, D.sid if k != "select" else None, None, "list"))
+    if n_final != len(env):
+        return f"final listing: the harness listed {n_final} frames, the reference has {len(env)}"
+    return None
+
+
+def _coq_hop(op):
+    k = op[0]
+    if k == "list":
+        return "HList"
+    if k == "mat":
+        return "HMat"
+    if k == "rowcount":
+        return "(HOp Len)"
+    if k == "add":
+        return "(HOp (AddF %s false))" % L.nat(op[1])
+    return "(HOp %s)" % _coq_op(op)
+
+
+def _coq_hout(o):
+    if o[0] == "new":
+        return "(HNew (%s : list (list N)))" % L.lst(_names(ns) for ns in o[1])
+    return "(HVal %s)" % _coq_out(o)
+
+
+def _to_coq_heap(case, obs):
+    fr = case["frames"]
+    fs = []
+    for j, f in enumerate(fr):
+        kind = "(Typed %s)" % L.nat(_schema_id(fr, j)) if f["typed"] else "Untyped"
+        fs.append("(mkHI (mkS %s %s) %s %s)" % (kind, _names(f["names"]), _rows(f["rows"]), L.boolean(bool(f.get("gen")))))
+    prog = ["(mkHStep %s %s)" % (L.nat(s["src"]), _coq_hop(s["op"])) for s in case["hsteps"]]
+    seen = [_coq_hout(o) for o in obs["steps"]]
+    for j, x in enumerate(obs["final"]):
+        prog.append("(mkHStep %s HList)" % L.nat(j))
+        seen.append(_coq_hout(["raise", x[1]] if x[0] == "!raise" else ["rows", x[1]]))
+    term = "((%s : list (hinit Z N)), (%s : list zhstep), (%s : list zhout))" % (L.lst(fs), L.lst(prog), L.lst(seen))
+    return ("heap", term)
+
+
+def _classify_heap(case, obs):
+    yield "heap:steps=%d" % len(case["hsteps"])
+    for f in case["frames"]:
+        yield "heap:initial:" + ("generator-backed" if f.get("gen") else "list-backed")
+    nenv = len(case["frames"])
+    lazy_at = {}      # env index of an unforced lazy result -> its source
+    touched = set()   # sources observed since a lazy child of theirs was made
+    for st, o in zip(case["hsteps"], obs["steps"]):
+        d = st["src"] % nenv
+        k = st["op"][0]
+        yield "heap:op:" + k
+        if o[0] == "raise":
+            yield "heap:raised:" + str(o[1])
+        if k in H_LAZY and o[0] == "new":
+            lazy_at[nenv] = d
+        elif k not in H_LAZY:
+            if d in lazy_at:
+                if lazy_at[d] in touched:
+                    yield "heap:lazy-result-forced-after-its-source-was-observed"
+                del lazy_at[d]
+            if d in lazy_at.values():
+                touched.add(d)
+        if o[0] == "new":
+            nenv += len(o[1])
+    if lazy_at:
+        yield "heap:lazy-result-first-listed-in-the-final-sweep"
+
+
+def _shrink_heap(case):
+    steps = case["hsteps"]
+    for i in range(len(steps) - 1, -1, -1):
+        yield dict(case, hsteps=steps[:i] + steps[i + 1:])
+    for j, f in enumerate(case["frames"]):
+        if len(case["frames"]) > 1:
+            yield dict(case, frames=case["frames"][:j] + case["frames"][j + 1:])
+        for i in range(len(f["rows"])):
+            g = dict(f, rows=f["rows"][:i] + f["rows"][i + 1:])
+            yield dict(case, frames=case["frames"][:j] + [g] + case["frames"][j + 1:])
+        if f["typed"]:
+            yield dict(case, frames=case["frames"][:j] + [dict(f, typed=False)] + case["frames"][j + 1:])
+
+
+def _hframe(names, rows, gen=False, typed=False, share=None):
+    return dict(_frame(names, rows, typed, share), gen=gen)
+
+
+def _hcase(frames, ops):
+    return {"frames": frames, "hsteps": [{"src": s, "op": op} for s, op in ops]}
+
+
+H_ROWS = [[1, 2], [3, 4], [5, 6]]
+
+
+def _deferred_cases(tier):
+    """every combination of: how the source is backed x which frame is derived from it x what is done
+    to the source (or to a sibling derived from it) before the derived frame is first listed"""
+    sources = [
+        ("list", [_hframe("ab", H_ROWS)], [], 0),
+        ("generator", [_hframe("ab", H_ROWS, gen=True)], [], 0),
+        ("select-of-list", [_hframe("ab", H_ROWS)], [(0, ["select", ["a", "b"]])], 1),
+        ("filter-of-list", [_hframe("ab", H_ROWS, typed=True)], [(0, ["filter", [1, 1, 1]])], 1),
+        ("take-of-generator", [_hframe("ab", H_ROWS, gen=True)], [(0, ["take", [0, 1, 2]])], 1),
+    ]
+    children = [["select", ["b", "a"]], ["select1", "b"], ["filter", [1, 0, 1]], ["filter", [1]], ["take", [0, 2]], ["head", 2], ["distinct"]]
+    between = [[], [["len"]], [["rowcount"]], [["mat"]], [["list"]], [["iter"]], [["head", 1]], [["collect", ["a"], None]], [["row", 0]],
+               [["query", ["true"]]], [["distinct"]], [["batches", 2]], [["add", None]],
+               [["select", ["a"]], "list-new"], [["filter", [1, 1]], "list-new"], [["take", [1]], "list-new"], [["select", ["b"]], ["len"], "list-new"]]
+    if tier != "quick":
+        between = between + [x + y for x in between[1:13] for y in between[1:13]]
+    for _sname, frames, pre, s in sources:
+        for child in children:
+            for btw in between:
+                for explicit in (False, True):
+                    ops = list(pre)
+                    c = s + 1                   # index of the derived frame
+                    ops.append((s, child))
+                    nxt = c + 1
+                    for b in btw:
+                        if b == "list-new":
+                            ops.append((nxt - 1, ["list"]))
+                        elif b[0] == "add":
+                            ops.append((s, ["add", s]))
+                            nxt += 1
+                        else:
+                            ops.append((s, b))
+                            if b[0] in H_NEWFRAME:
+                                nxt += 2 if b[0] == "batches" else 1
+                    if explicit:
+                        ops.append((c, ["list"]))
+                    yield _hcase(frames, ops)
+
+
+def _rand_hcase(rng, malformed=False):
+    names, rows = _rand_frame(rng)
+    if not names and rng.random() < 0.7:
+        names, rows = _rand_frame(rng, rng.sample("abcd", rng.choice([1, 2, 3])))
+    typed = rng.random() < 0.3
+    frames = [_hframe(names, rows, gen=rng.random() < 0.6, typed=typed)]
+    if rng.random() < 0.35:
+        _, rows2 = _rand_frame(rng, names)
+        frames.append(_hframe(names, rows2, gen=rng.random() < 0.5, typed=typed, share=0 if rng.random() < 0.8 else None))
+    case = {"frames": frames, "hsteps": []}
+    # plain-list bookkeeping (names, rows of every frame as if nothing were lazy) to keep arguments in range
+    P = _Plain(case)
+    has_child = []
+    for _ in range(rng.randint(2, 8)):
+        u = rng.random()
+        if has_child and u < 0.35:
+            src = rng.choice(has_child)                    # observe a frame something lazy hangs off
+        elif u < 0.85:
+            src = rng.randint(0, len(P.env) - 1)
+        else:
+            src = rng.randint(0, 20)
+        d = src % len(P.env)
+        nm, sid, rws = P.env[d]
+        n = len(rws)
+        u = rng.random()
+        if u < 0.34:
+            k = rng.choice(["select", "select", "select1", "filter", "take"])
+            if k == "filter":
+                op = [k, [rng.randint(0, 1) if rng.random() < 0.6 else 1 for _ in range(rng.choice([n, n, n, max(0, n - 1), n + 1, 1]))]]
+            elif k == "take":
+                op = [k, [rng.randint(-1, n + 1) for _ in range(rng.randint(0, n + 1))]]
+            else:
+                op = _rand_op(rng, nm, n, len(P.env), malformed)
+                while op[0] not in ("select", "select1"):
+                    op = _rand_op(rng, nm, n, len(P.env), malformed)
+        elif u < 0.62:
+            op = rng.choice([["len"], ["rowcount"], ["mat"], ["list"], ["iter"], ["len"], ["list"],
+                             ["row", rng.randint(-n, n - 1) if n else 0], ["head", rng.randint(0, n + 1)], ["distinct"], ["query", ["true"]]])
+        else:
+            op = _rand_op(rng, nm, n, len(P.env), malformed)
+            if op[0] == "add":
+                op = ["add", op[1]]
+        case["hsteps"].append({"src": src, "op": op})
+        if op[0] in ("list", "mat", "rowcount"):
+            continue
+        kind, want, rsid = P.expect({"src": src, "lazy": False, "op": op if op[0] != "add" else ["add", op[1], False]})
+        if kind == "frame":
+            if op[0] in H_LAZY:
+                has_child.append(d)
+            P.env.append((want[0], rsid, want[1]))
+        elif kind == "frames":
+            for b in want:
+                P.env.append((b[0], sid, b[1]))
+        elif kind == "free" and op[0] in ("head", "tail", "slice", "add", "batches"):
+            break
+    return case
+
